@@ -55,6 +55,7 @@ pub const BOUNDARY: &[(&str, &str)] = &[
     ("unicode-string", "(string-append \"é😀\")"),
     ("abc", "(string-append \"abc\")"),
     ("symbol", "'sym"),
+    ("symbol-b", "'other"),
     ("true", "#t"),
     ("builtin", "car"),
     ("closure", "(lambda (x) x)"),
@@ -68,7 +69,7 @@ pub const BOUNDARY: &[(&str, &str)] = &[
     ("list-1000", "(let lp ((i 0) (x '())) (if (< i 1000) (lp (+ i 1) (cons i x)) x))"),
 ];
 
-pub const KINDS: &[&str] = &["zero", "true", "e-acute", "symbol", "abc", "shared", "vec1", "builtin", "nil"];
+pub const KINDS: &[&str] = &["zero", "true", "e-acute", "symbol", "symbol-b", "abc", "shared", "vec1", "builtin", "nil"];
 
 fn palette_setup() -> String {
     let mut s = String::new();
@@ -76,6 +77,12 @@ fn palette_setup() -> String {
         s.push_str(&format!("(define v{} {})\n", i, e));
     }
     s
+}
+
+/// Does the call take one of the palette's continuations as an argument?
+fn mentions_continuation(expr: &str) -> bool {
+    let toks: Vec<&str> = expr.split(|c: char| c == ' ' || c == '(' || c == ')').collect();
+    BOUNDARY.iter().enumerate().any(|(i, (name, _))| name.contains("continuation") && toks.contains(&format!("v{}", i).as_str()))
 }
 
 fn big_number(name: &str) -> bool {
@@ -133,6 +140,30 @@ pub fn worker_case(st: &mut WState, batch: &str) -> String {
                 }
             }
         };
+        // stack discipline: the same call as the middle operand of an enclosing application must leave the
+        // neighbouring operands alone (a builtin pops its own operands: one that returns early without
+        // popping them all displaces the operands of its caller)
+        // (a call that hands control to a stored continuation abandons the enclosing application: not covered)
+        if verdict.starts_with("ok:") && !mentions_continuation(&expr) {
+            let wrapped = format!("(list 'left-operand {} 'right-operand)", expr);
+            match (&o, im.eval_text(&wrapped)) {
+                (_, ImplOut::Panic(m)) => verdict = format!("P:as an operand: {}", m),
+                (ImplOut::Value(_), ImplOut::Value(c)) => {
+                    let items: Vec<Cell> = c.iter().cloned().collect();
+                    let ok = c.is_list() && items.len() == 3 && items[0] == Cell::new_symbol("left-operand") && items[2] == Cell::new_symbol("right-operand");
+                    if !ok {
+                        let shown = std::panic::catch_unwind(move || format!("{:#}", c)).unwrap_or_else(|_| "<unprintable>".into());
+                        verdict = format!("S:{} gave {}", wrapped, shown.chars().take(200).collect::<String>());
+                    }
+                }
+                (ImplOut::Error(_, _), ImplOut::Value(c)) => {
+                    let shown = std::panic::catch_unwind(move || format!("{:#}", c)).unwrap_or_else(|_| "<unprintable>".into());
+                    verdict = format!("S:the call alone fails but {} gave {}", wrapped, shown.chars().take(200).collect::<String>());
+                }
+                // a mutator may legitimately succeed once and fail the second time (or the reverse)
+                _ => {}
+            }
+        }
         if verdict.starts_with("P:") {
             st.im = None;
         } else {
@@ -661,6 +692,7 @@ pub fn run(ctx: &Ctx) -> i32 {
             "P:" => "panic",
             "R:" => "error-not-renderable",
             "U:" => "vm-unusable-afterwards",
+            "S:" => "operands-of-the-caller-displaced",
             "H:" => "hang",
             _ => "abort",
         };
@@ -709,7 +741,7 @@ pub fn run(ctx: &Ctx) -> i32 {
     }
     rep.exhaustive = !truncated;
     rep.rule = format!(
-        "(a) every concatenation of <= {} lexemes over {:?} ({} texts), plus {} literal-family texts (character / string-escape / radix prefixes x 27 hex payloads around the surrogate range, U+10FFFF, 2^32 and 2^64 x 6 terminators; 16 character names; 8 numeric prefixes x 9 mantissas x 12 exponents up to e5000; each bare, in a list, in a dotted pair and inside a string), plus {} malformed programs ({} well-formed seed forms covering every special form, each with one sub-datum at a time replaced by each of {} junk data or removed; at top level, in a procedure body, in a defined procedure and next to an internal definition), through lex::scan, parse::parse_text, Vm::eval_text (datum by datum), prepare_eval + run_count(3), and ReplHighlighter::highlight / highlight_check at every cursor; (b) every global procedure of Vm::global_symbols() (so a new builtin is picked up automatically) at every arity 0..{} with arguments from a {}-value boundary palette (thorough: arity 3 from every second palette value) (empty / one-element / shared / improper containers; 0, -1, i32 and i64 extremes +-1, 2^64, 2^200, rationals at the 32-bit limits, +-0.0, +-inf, NaN, 1e308; #\\nul, non-ASCII characters and strings; procedures, a continuation, the unspecified value, procedures and continuations smuggled into data, nesting 60, a 1000-element list) and at arities up to {} from one value per kind = {} calls, in isolated workers (address-space cap, watchdog); allocation sizes above 10^6 are excluded as the property states; (c) {} cyclic structures x {} uses (list? length equal? display write, and as the value of an evaluation). Oracle: outcome is a value or an error, the error (and value) can be rendered as text, and the same VM then evaluates (+ 1 2) to 3. Non-trivial = a case that satisfied the oracle.",
+        "(a) every concatenation of <= {} lexemes over {:?} ({} texts), plus {} literal-family texts (character / string-escape / radix prefixes x 27 hex payloads around the surrogate range, U+10FFFF, 2^32 and 2^64 x 6 terminators; 16 character names; 8 numeric prefixes x 9 mantissas x 12 exponents up to e5000; each bare, in a list, in a dotted pair and inside a string), plus {} malformed programs ({} well-formed seed forms covering every special form, each with one sub-datum at a time replaced by each of {} junk data or removed; at top level, in a procedure body, in a defined procedure and next to an internal definition), through lex::scan, parse::parse_text, Vm::eval_text (datum by datum), prepare_eval + run_count(3), and ReplHighlighter::highlight / highlight_check at every cursor; (b) every global procedure of Vm::global_symbols() (so a new builtin is picked up automatically) at every arity 0..{} with arguments from a {}-value boundary palette (thorough: arity 3 from every second palette value) (empty / one-element / shared / improper containers; 0, -1, i32 and i64 extremes +-1, 2^64, 2^200, rationals at the 32-bit limits, +-0.0, +-inf, NaN, 1e308; #\\nul, non-ASCII characters and strings; procedures, a continuation, the unspecified value, procedures and continuations smuggled into data, nesting 60, a 1000-element list) and at arities up to {} from one value per kind = {} calls, in isolated workers (address-space cap, watchdog); allocation sizes above 10^6 are excluded as the property states; (c) {} cyclic structures x {} uses (list? length equal? display write, and as the value of an evaluation). Oracle: outcome is a value or an error, the same call as the middle operand of (list 'left-operand <call> 'right-operand) leaves its neighbours in place, the error (and value) can be rendered as text, and the same VM then evaluates (+ 1 2) to 3. Non-trivial = a case that satisfied the oracle.",
         nlex, LEXEMES, n_texts, lits.len(), mal.len(), SEEDS.len(), JUNK.len(), ctx.tier.pick(2, 3), BOUNDARY.len(), ctx.tier.pick(3, 5), nb, CYCLIC.len(), CYCLIC_USES.len()
     );
     rep.extra("builtin_calls", json!(nb));
